@@ -268,7 +268,7 @@ def wf_type(fcp: "ref:FcpV2", t: "ref:Type") -> "bool":
     if isinstance(t, StringType):
         return True
     if isinstance(t, EnumType):
-        return has_enum(fcp, t.name) and enum_values_ok(enum_of(fcp, t.name))
+        return has_enum(fcp, t.name) and enum_values_ok(enum_of(fcp, t.name)) and enum_width(enum_of(fcp, t.name)) <= 64
     if isinstance(t, StructType):
         return wf_struct(fcp, t.name)
     if isinstance(t, ArrayType):
@@ -290,3 +290,28 @@ def has_struct_in(ss: "seq[ref:Struct]", name: "str") -> "bool":
 @pure
 def has_enum_in(es: "seq[ref:Enum]", name: "str") -> "bool":
     return first_enum_from(es, name, 0) >= 0
+
+
+# ---------------------------------------------------------------- suffix forms (only used by the round-trip lemmas)
+def wire_chars_from(cs: "seq[char]", i: "int", n: "int") -> "seq[int]":
+    if i >= n:
+        return seq_empty("int")
+    return word_bits(cs[i], 8) + wire_chars_from(cs, i + 1, n)
+
+
+def wire_elems_from(fcp: "ref:FcpV2", u: "ref:Type", l: "seq[dyn]", i: "int", n: "int") -> "seq[int]":
+    if i >= n:
+        return seq_empty("int")
+    return wire(fcp, u, l[i]) + wire_elems_from(fcp, u, l, i + 1, n)
+
+
+def wire_fields_from(fcp: "ref:FcpV2", fs: "seq[ref:StructField]", v: "dyn", i: "int", n: "int") -> "seq[int]":
+    if i >= n:
+        return seq_empty("int")
+    return wire(fcp, fs[i].type, dyn_get(v, fs[i].name)) + wire_fields_from(fcp, fs, v, i + 1, n)
+
+
+@pure
+def pad_of(b: "arr", s: "seq[int]") -> "seq[int]":
+    """the padding bits after s in the last byte of its packing b"""
+    return seq_extract(bits_of_bytes(b), len(s), 8 * arr_len(b) - len(s))
